@@ -401,3 +401,19 @@ Proof.
   - intros [|id] Hid; [discriminate|cbn in Hid; lia].
   - vm_compute. repeat split. intros H; discriminate H.
 Qed.
+
+(* No pure built-in observes the IDENTITY of a function cell (proofs/C02Blind.v; a third instance of
+   RelPure.v): argument vectors that are equal after erasing every cell index — which includes
+   [f0, f0] versus [f0, f1], a pair no renaming relates — give outcomes equal up to cell indices, for each of
+   the 32 pure arms of EvalFull.builtin_full (RelPure.pure_arm_of: aggregates, list / string / record
+   built-ins incl. unique includes sort, convert round random to_number to_string join). *)
+Require Import Blots.proofs.RelPure Blots.proofs.C02Blind.
+Theorem C02_pure_builtins_blind_to_cells : forall b f, pure_arm_of b = Some f ->
+  forall args args', Forall2 same_up_to_cells args args' -> osame (f args) (f args').
+Proof. exact pure_builtins_blind_to_cells. Qed.
+Check C02_pure_builtins_blind_to_cells : forall b f, pure_arm_of b = Some f ->
+  forall args args', Forall2 same_up_to_cells args args' -> osame (f args) (f args').
+Print Assumptions C02_pure_builtins_blind_to_cells.
+Example C02_pure_arm_table_size :
+  length (filter (fun b => match pure_arm_of b with Some _ => true | None => false end) all_builtins) = 32.
+Proof. vm_compute. reflexivity. Qed.
